@@ -150,6 +150,38 @@ func CheckC20(c *BatchCase, st *Stats) *Violation {
 			return Violf("application %d rebuilt and rerun sequentially gives another outcome: first %s, then %s", i, first[i], r)
 		}
 	}
+	// (1b) only the environment at DECLARATION time counts: the variables of the application are unset or overwritten
+	// between its declarations and its Run (sequential phase only: the environment is process-wide)
+	for i := range c.Items {
+		mine := map[string]string{}
+		for k, v := range env {
+			if len(k) > len(envPrefixOf(i)) && k[:len(envPrefixOf(i))] == envPrefixOf(i) {
+				mine[k] = v
+			}
+		}
+		if len(mine) == 0 {
+			continue
+		}
+		flip := i%2 == 0
+		AfterDeclare = func() {
+			for k := range mine {
+				if flip {
+					os.Unsetenv(k)
+				} else {
+					os.Setenv(k, "changed-after-declaration")
+				}
+			}
+		}
+		r := runItem(i, &c.Items[i])
+		AfterDeclare = nil
+		for k, v := range mine {
+			os.Setenv(k, v)
+		}
+		if r != first[i] {
+			return Violf("application %d gives another outcome when its environment variables are changed AFTER its declarations (before Run): declared-time outcome %s, now %s", i, first[i], r)
+		}
+		st.Class("env-changed-between-declaration-and-run")
+	}
 	// (2) order independence
 	for _, i := range c.Order2 {
 		if r := runItem(i, &c.Items[i]); r != first[i] {
